@@ -26,8 +26,9 @@ BOUNDS = {
 }
 
 LEAVES = {
-    'N': ['0', '1', '2', '7', '2.5', '0.1', '10', '3.00', 'n', 'm', '(0 - 1)', '(0 - 2.5)'],
-    'S': ['"ab"', '""', '"a b"', '"B"', 's', '"1"'],
+    'N': ['0', '1', '2', '7', '2.5', '0.1', '10', '3.00', 'n', 'm', '(0 - 1)', '(0 - 2.5)', '12345678901234567890123456789.75',
+          '99999999999999999999999999999'],
+    'S': ['"ab"', '""', '"a b"', '"B"', 's', '"1"', '"a\u2028b"', '"x\x0cy\x85z\x0b"', '"p\rq\x1c\x1e"', '"é\U0001F600µ"'],
     'B': ['True', 'False'],
     'O': ['None'],
     'LN': ['[3, 1, 2]', '[]', '[1]', 'l', '[1, 1]'],
